@@ -22,8 +22,9 @@ PROPERTY = 'C17'
 LEVEL = 'other'
 EXPLANATION = ('three statements of GenerateRxnNet are extracted mechanically and verified with an abstract species comparison for lists of up to two or three entries: '
                'putting the seeds on the work list (establishes "no species twice" for any seed list), taking the next species (nothing lost, waiting list '
-               'shorter), the work-list update (invariant preserved, every new product queued once); the closure property itself is checked by the bounded '
-               'stand-in against an independent breadth-first closure')
+               'shorter), the work-list update (invariant preserved, every new product queued once); a lemma derives the clauses of the property (closed under the '
+               'rules, nothing but reachable species, seeds kept) from these per-iteration facts, ASSUMING that every rule is run on the popped species (RDKit '
+               'calls, not modelled); the closure property as a whole is checked by the bounded stand-in against an independent breadth-first closure')
 GEN = 'pgradd/RDkitWrapper/GenRxnNet.py'
 IS, BS = z3.IntSort(), z3.BoolSort()
 NAtoms = z3.Function('GetNumAtoms', IS, IS)
@@ -269,9 +270,54 @@ def replay_update(model, state, ob):
 
 
 SIZES = [(1, 1, 1), (2, 1, 1), (1, 2, 1), (2, 1, 0), (1, 1, 2), (2, 2, 1)]
+def u_closure_lemma(I):
+    """From the per-iteration facts to the clauses of the property (pure logic over an uninterpreted sort of species).
+    Per-iteration facts: (a) the lists only grow as a whole (loop-head unit: the popped species moves from `unprocessed` to `processed`; update unit: products
+    are only ever added), (b) after the update every product of the popped species x that passed the filter is (iso to) a member (update unit, first post),
+    (c) whatever is added is such a product (update unit: "nothing but products is queued").  NOT verified here and assumed: between loop head and update the
+    code hands x to EVERY rule and collects every product set (RunReactants and the filter are RDKit calls, not modelled) -- that is what Prod stands for.
+    Invariants:  Closed(P, L): every product of a processed species is iso to a member of L;  Sound(L): every member is reachable from the seeds."""
+    ctx = I.ctx
+    Sp = z3.DeclareSort('Sp')
+    InL, InL2, P, P2, Reach, Seed = [z3.Function(n, Sp, BS) for n in ('InL', 'InL2', 'Proc', 'Proc2', 'Reach', 'Seed')]
+    Prod = z3.Function('Prod', Sp, Sp, BS)
+    Iso = z3.Function('Iso', Sp, Sp, BS)
+    x = z3.Const('x', Sp)
+    s_, q_, m_ = z3.Consts('s q m', Sp)
+    A = ctx.assume
+    # iso is an equivalence that rules respect up to iso (reachability is a property of the species, not of the object)
+    A(z3.ForAll([s_], Iso(s_, s_)))
+    A(z3.ForAll([s_, q_], z3.Implies(Iso(s_, q_), Iso(q_, s_))))
+    A(z3.ForAll([s_, q_, m_], z3.Implies(z3.And(Iso(s_, q_), Iso(q_, m_)), Iso(s_, m_))))
+    A(z3.ForAll([s_], z3.Implies(Seed(s_), Reach(s_))))
+    A(z3.ForAll([s_, q_], z3.Implies(z3.And(Reach(s_), Prod(s_, q_)), Reach(q_))))
+    # state before the iteration: invariants hold, x is the member taken from the waiting list
+    closed = lambda Pn, Ln: z3.ForAll([s_, q_], z3.Implies(z3.And(Pn(s_), Prod(s_, q_)), z3.Exists([m_], z3.And(Ln(m_), Iso(q_, m_)))))
+    sound = lambda Ln: z3.ForAll([m_], z3.Implies(Ln(m_), Reach(m_)))
+    seeds_in = lambda Ln: z3.ForAll([s_], z3.Implies(Seed(s_), z3.Exists([m_], z3.And(Ln(m_), Iso(s_, m_)))))
+    A(closed(P, InL)); A(sound(InL)); A(seeds_in(InL))
+    A(z3.And(InL(x), z3.Not(P(x))))
+    A(z3.ForAll([s_], z3.Implies(P(s_), InL(s_))))
+    # the iteration (facts a, b, c)
+    A(z3.ForAll([s_], z3.Implies(InL(s_), InL2(s_))))
+    A(z3.ForAll([s_], P2(s_) == z3.Or(P(s_), s_ == x)))
+    A(z3.ForAll([q_], z3.Implies(Prod(x, q_), z3.Exists([m_], z3.And(InL2(m_), Iso(q_, m_))))))
+    A(z3.ForAll([m_], z3.Implies(z3.And(InL2(m_), z3.Not(InL(m_))), Prod(x, m_))))
+    ctx.oblige('closure is preserved: every product of a processed species is (iso to) a listed species', closed(P2, InL2))
+    ctx.oblige('nothing else is listed: every member is obtainable from the seeds by the rules', sound(InL2))
+    ctx.oblige('every seed stays listed', seeds_in(InL2))
+    ctx.oblige('processed species are members', z3.ForAll([s_], z3.Implies(P2(s_), InL2(s_))))
+    # exit: the waiting list is empty, so every member is processed: the list is closed under the rules
+    A(z3.ForAll([s_], z3.Implies(InL2(s_), P2(s_))))
+    ctx.oblige('at exit (nothing waiting) the returned list is closed under the rules: a product of ANY listed species is (iso to) a listed species',
+               z3.ForAll([s_, q_], z3.Implies(z3.And(InL2(s_), Prod(s_, q_)), z3.Exists([m_], z3.And(InL2(m_), Iso(q_, m_))))))
+    return {'inputs': {}}
+
+
 UNITS = [Unit('GenerateRxnNet[work-list update %d products, %d processed, %d unprocessed]' % s_, (GEN, 'GenerateRxnNet'), u_update_sized(s_), replay_update) for s_ in SIZES]
 UNITS += [Unit('GenerateRxnNet[seeds -> work list, %d seeds]' % k, (GEN, 'GenerateRxnNet'), u_seeds(k), replay_seeds) for k in (1, 2, 3)]
 UNITS += [Unit('GenerateRxnNet[loop head: next species]', (GEN, 'GenerateRxnNet'), u_pop)]
+UNITS += [Unit('lemma:work-list-invariants-give-the-closure', None, u_closure_lemma, kind='lemma')]
 
 from . import standins
 STANDINS = [standins.c17_closure]
